@@ -11,7 +11,7 @@ from ..parser import Structural
 
 PROP = 'C08'
 LEVEL = 'exploration'
-N = {'quick': 100000, 'thorough': 3000000}
+N = {'quick': 60000, 'thorough': 3000000}
 RULE = ('seeded TdmsWriter programs (1-8 write_segment calls, 0-6 objects each over every supported array dtype / '
         'list / string / datetime form and property value type, nasty names, session splits with mode="a", version '
         '4712/4713, index off / True / stream) on SimFS path, SimFile stream, BytesIO or a real path; after every '
